@@ -609,10 +609,20 @@ def findZeroUnit (bs : Bits) (unit : Nat) : Nat → Nat → Option Nat
       if ofBitsBE (slice bs off unit) = 0 then some off else findZeroUnit bs unit fuel (off + unit)
     else none
 
+/-- the same search walking the remaining bits instead of re-slicing the whole input (linear; what
+    the driver runs — inputs of several hundred thousand bits).  `findZeroFrom_eq` (Proofs/C02Text):
+    `findZeroFrom unit fuel (bs.drop off) off = findZeroUnit bs unit fuel off`. -/
+def findZeroFrom (unit : Nat) : Nat → Bits → Nat → Option Nat
+  | 0, _, _ => none
+  | fuel+1, rest, off =>
+    if (rest.take unit).length = unit then
+      if ofBitsBE (rest.take unit) = 0 then some off else findZeroFrom unit fuel (rest.drop unit) (off + unit)
+    else none
+
 def tryTextNullFrame (bs : Bits) (pos : Nat) (charBytes : Nat) : Res (List Nat) :=
   if charBytes < 1 then .err .other pos
   else
-    match findZeroUnit bs (8 * charBytes) (bs.length + 1) pos with
+    match findZeroFrom (8 * charBytes) (bs.length + 1) (bs.drop pos) pos with
     | none => .err .eof pos                          -- TryPeekFind seeks back to start
     | some off =>
       let n := (off - pos) / 8 + charBytes
